@@ -27,6 +27,7 @@ generated for that pickler.  `pickle_type=null` with a secret is the default pic
 """
 from __future__ import annotations
 
+import copy
 import datetime
 import decimal
 import json
@@ -72,11 +73,12 @@ def conf_from_json(d: dict) -> S.Conf:
 
 
 def pairs_src(pairs) -> str:
-    return repr(list(pairs))
+    return S.rp(list(pairs))
 
 
 def pairs_eval(src: str):
-    return [tuple(p) for p in eval(src, dict(NS))]  # corpus / replay files are part of this repository
+    with S.no_int_str_limit():       # a replay file may spell an integer of more than 4300 digits out
+        return [tuple(p) for p in eval(src, dict(NS))]  # corpus / replay files are part of this repository
 
 
 # ----------------------------------------------------------------------------------------------------
@@ -87,16 +89,28 @@ def run_impl(conf: S.Conf, pairs):
 
     async def go():
         cache, backend, rec = conf.setup()
-        recs = [{"key": k, "value": v} for k, v in pairs]
+        # r["value"] is an INDEPENDENT deep snapshot taken before any call: the reference of every comparison and what the
+        # model is asked about.  The cache is handed other objects (r["live"], r["live2"]: the caller's own), which the
+        # caller changes at the top level right after set / set_many - "storing the value" means the value at that moment.
+        # An object used under several keys stays ONE object on the caller's side (shared deepcopy memo).
+        memo1: dict = {}
+        memo2: dict = {}
+        recs = [{"key": k, "value": copy.deepcopy(v), "live": copy.deepcopy(v, memo1), "live2": copy.deepcopy(v, memo2)} for k, v in pairs]
         for r in recs:
             rec.reset()
             del S.CODEC_CALLS[:]
             try:
-                r["set"] = await cache.set(r["key"], r["value"])
+                r["set"] = await cache.set(r["key"], r["live"])
             except Exception as exc:  # noqa: BLE001
                 r["set"] = "raised:" + type(exc).__name__
             r["dumps"] = list(rec.dumps_calls)
             r["enc_calls"] = list(S.CODEC_CALLS)
+        mutated = set()
+        for r in recs:
+            if id(r["live"]) not in mutated:
+                mutated.add(id(r["live"]))
+                r["mutated"] = S.mutate_top(r["live"])
+        for r in recs:
             r["rawA"] = await cache.get_raw(r["key"])
         for r in recs:
             rec.reset()
@@ -109,10 +123,15 @@ def run_impl(conf: S.Conf, pairs):
             r["getC"] = o
         await cache.clear()
         try:
-            await cache.set_many({r["key"]: r["value"] for r in recs})
+            await cache.set_many({r["key"]: r["live2"] for r in recs})
             sm = True
         except Exception as exc:  # noqa: BLE001
             sm = "raised:" + type(exc).__name__
+        mutated = set()
+        for r in recs:
+            if id(r["live2"]) not in mutated:
+                mutated.add(id(r["live2"]))
+                S.mutate_top(r["live2"])
         for r in recs:
             r["set_many"] = sm
             r["rawB"] = await cache.get_raw(r["key"])
@@ -151,7 +170,7 @@ def check_hyps(conf: S.Conf, v, hyp):
         h["checked"] += 1
         if not ok:
             h["failed"] += 1
-            h["first_failure"] = h["first_failure"] or f"{conf.name()} {v!r}"[:200]
+            h["first_failure"] = h["first_failure"] or f"{conf.name()} {S.RP(v)!r}"[:200]
 
 
 # ----------------------------------------------------------------------------------------------------
@@ -211,34 +230,34 @@ def evaluate(cases, ids: S.Ids):
         pr = problems[ci]
         for ans in (a1[i], a2[i], a3[i], a4[i], a5[i], a6[i]):
             if ans == "bad-op":
-                raise HarnessError(f"driver could not parse a request for case {conf.name()} {r['key']!r} {v!r}")
+                raise HarnessError(f"driver could not parse a request for case {conf.name()} {r['key']!r} {S.RP(v)!r}")
             if "miss=1" in ans:
                 raise HarnessError(f"model asked for a MAC the driver did not announce: {ans}")
         # ---- (b) the property: equal value of the same type on every read path
         if r["set"] is not True:
-            pr.append(("spec", f"set({r['key']!r}, {v!r}) -> {r['set']}"))
+            pr.append(("spec", f"set({r['key']!r}, {S.RP(v)!r}) -> {r['set']}"))
         if r["set_many"] is not True:
-            pr.append(("spec", f"set_many with {r['key']!r}: {v!r} -> {r['set_many']}"))
+            pr.append(("spec", f"set_many with {r['key']!r}: {S.RP(v)!r} -> {r['set_many']}"))
         for path in ("getA", "manyB", "getC"):
             kind, got = r[path]
             label = {"getA": "set/get", "manyB": "set_many/get_many", "getC": "set/get(default None)"}[path]
             if kind != "value" or S.canon_s(got) != want:
-                shown = f"{got!r} ({type(got).__name__})" if kind == "value" else (kind + (":" + str(got) if got else ""))
-                pr.append(("spec", f"{label}: stored {v!r} ({type(v).__name__}) under {r['key']!r}, read back {shown}"))
+                shown = f"{S.RP(got)!r} ({type(got).__name__})" if kind == "value" else (kind + (":" + str(got) if got else ""))
+                pr.append(("spec", f"{label}: stored {S.RP(v)!r} ({type(v).__name__}) under {r['key']!r}, read back {shown}"))
         # ---- (c) "round-trip through that pair": the pair registered for the value's class was used
         own = S.registered_slots().get(S.slot(type(v)))
         if isinstance(v, S.Boxed) and own is not None and own[0] is type(v):
             if ("enc", type(v), own[1]) not in r["enc_calls"]:
-                pr.append(("spec", f"set({r['key']!r}, {v!r}): {type(v).__qualname__} was handed to register_type but its encoder "
-                                   f"was not called; stored form {r['rawA']!r:.80}"))
+                pr.append(("spec", f"set({r['key']!r}, {S.RP(v)!r}): {type(v).__qualname__} was handed to register_type but its encoder "
+                                   f"was not called; stored form {S.rp(r['rawA'])[:80]}"))
             elif ("dec", type(v), own[1]) not in r["dec_calls"]:
-                pr.append(("spec", f"get({r['key']!r}) of {v!r}: {type(v).__qualname__} is registered but its decoder was not called"))
+                pr.append(("spec", f"get({r['key']!r}) of {S.RP(v)!r}: {type(v).__qualname__} is registered but its decoder was not called"))
         # ---- (a) implementation vs model
         m_stored = a2[i].split()[0]
         for which in ("rawA", "rawB"):
             i_stored = "stored=" + S.show_val(r[which], ids)
             if m_stored != i_stored:
-                pr.append(("model", f"stored form ({'set' if which == 'rawA' else 'set_many'}) of {v!r} under {r['key']!r}: impl {i_stored[:120]} model {m_stored[:120]}"))
+                pr.append(("model", f"stored form ({'set' if which == 'rawA' else 'set_many'}) of {S.RP(v)!r} under {r['key']!r}: impl {i_stored[:120]} model {m_stored[:120]}"))
         pre = a4[i].split()[0]
         called = [p for p, _, _ in r["loadsA"]]
         expect = [bytes.fromhex(pre.split(":", 1)[1])] if pre.startswith("pre=loads:") else []
@@ -247,15 +266,15 @@ def evaluate(cases, ids: S.Ids):
         m_res = a5[i].split()[0]
         i_res = "res=" + S.show_outcome(r["getA"], ids)
         if m_res != i_res:
-            pr.append(("model", f"get({r['key']!r}) of stored {v!r}: impl {i_res[:120]} model {m_res[:120]}"))
+            pr.append(("model", f"get({r['key']!r}) of stored {S.RP(v)!r}: impl {i_res[:120]} model {m_res[:120]}"))
         i_many = "res=" + S.show_outcome(r["manyB"], ids)
         if m_res != i_many and m_stored == "stored=" + S.show_val(r["rawB"], ids):
-            pr.append(("model", f"get_many({r['key']!r}) of stored {v!r}: impl {i_many[:120]} model {m_res[:120]}"))
+            pr.append(("model", f"get_many({r['key']!r}) of stored {S.RP(v)!r}: impl {i_many[:120]} model {m_res[:120]}"))
         m_c = a6[i].split()[0]
         gc = r["getC"]
         i_c = "res=dflt" if (gc[0] == "value" and gc[1] is None and r["rawA"] is None) else "res=" + S.show_outcome(gc, ids)
         if m_c != i_c:
-            pr.append(("model", f"get({r['key']!r}) with default None of stored {v!r}: impl {i_c[:120]} model {m_c[:120]}"))
+            pr.append(("model", f"get({r['key']!r}) with default None of stored {S.RP(v)!r}: impl {i_c[:120]} model {m_c[:120]}"))
         # ---- interesting states
         t = tags[ci]
         if isinstance(v, bytes) and v.isdigit():
@@ -292,6 +311,8 @@ def evaluate(cases, ids: S.Ids):
             t.add("decimal_or_date")
         if r["rawA"] is None and v is None:
             t.add("value_is_default_none")
+        if r.get("mutated"):
+            t.add("mutable_value_changed_by_the_caller_after_the_write")
     sample_lines = [{"request": l5[i], "answer": a5[i]} for i in range(min(2, len(l5)))]
     return problems, tags, sample_lines
 
@@ -360,12 +381,17 @@ def report(chk: Check, conf, pairs, origin):
         "pairs": pairs_src(small),
         "problems": [t for _, t in probs][:6],
         "origin": origin,
+        "procedure": "each value is handed to set (then to set_many) as the caller's own object, which the caller changes at the top "
+                     "level right after the write (serial.mutate_top); reads are compared with an independent snapshot",
         "replay_cmd": "./check C09 --replay <this file>",
     }
     v = small[0][1] if small else None
     if kind == "spec":
+        # a value containing an integer beyond the interpreter's int -> str limit that cannot be READ back: the repr check
+        # of Serializer._decode (candidate defect, proposed_fixes/pending/C09_repr_check_must_not_fail_the_read.diff)
+        huge = any(S.has_huge_int(x) for _, x in small) and any("ValueError" in t for _, t in probs)
         chk.violation(f"serialization does not round-trip under {conf.name()}: {probs[0][1]}"[:600], replay,
-                      signature=f"roundtrip:{type(v).__name__}")
+                      signature="C09:repr-check-raises-on-read" if huge else f"roundtrip:{type(v).__name__}")
     else:
         chk.violation(f"correspondence broken: cashews/serialize.py differs from model Serial but the value still round-trips "
                       f"({conf.name()}): {probs[0][1]}"[:600],
@@ -419,7 +445,9 @@ def gen_case(rng, conf: S.Conf):
         elif conf.is_json:
             v = S.gen_json_value(rng)
         else:
-            v = S.gen_value(rng)
+            v = S.gen_value(rng, huge=True)
+        if pairs and rng.random() < 0.08:
+            v = pairs[-1][1]                 # ONE object under two keys
         pairs.append((k, v))
     return pairs
 
